@@ -34,6 +34,12 @@ func classesOf(c Case, res simResult) (cl []string, cycle, tie, fault bool) {
 	if c.Sched.DropPct > 0 && res.counts["dropped-sync-act"]+res.counts["dropped-sync-psv"]+res.counts["dropped-sync-pfs"] > 0 {
 		cl = append(cl, "sync-loss")
 	}
+	if res.counts["dropped-fetch-adv"] > 0 {
+		cl = append(cl, "advertisement-fetch-lost-and-retried")
+	}
+	if res.counts["dropped-fetch-pfx"]+res.counts["dropped-fetch-snap"] > 0 {
+		cl = append(cl, "prefix-log-fetch-lost-and-retried")
+	}
 	switch {
 	case c.Sched.MaxDelay == 0:
 		cl = append(cl, "delay=5ms-constant")
